@@ -55,6 +55,16 @@ CLAIMED = {
         note=COMMON_NOTE + " Analysed configuration: openmp (the OpenMP constructs only exist in the AST with -fopenmp -DSTIR_OPENMP). The table "
         "REVIEWED_CALLEES of thread-safe entry points is part of the trusted base.",
     ),
+    "C13": dict(
+        text="Static analysis of the current source, for every BinNormalisation class compiled in this build. Decides: apply and undo are "
+        "duals (the data is modified the same number of times, by factors whose data-flow sources are identical, with inverse operations; "
+        "member->apply <-> member->undo), including the ProjData and only_first/only_second variants; the chain's efficiency is the product "
+        "of its members' with absent members as 1 and apply/undo visit each member once; check() precedes every modification; the chain "
+        "sets up base and members and propagates failure; every set_up is idempotent (no member updated from its own previous value); the "
+        "trivial normalisation's apply/undo are empty. Efficiency values, ACF = exp(line integral), positivity are NOT decided.",
+        technique="static analysis: sibling (dual) agreement of effect summaries with data-flow source signatures, must-pass-through, "
+        "self-dependence of member updates in set_up",
+    ),
 }
 
 NOT_APPLICABLE = {
